@@ -138,6 +138,7 @@ def ed_sign_case(kd, ph, ctx, msg, acc):
     cv = kd["curve"]
     case = {"part": "ed-sign", "key": keymat(kd), "ph": ph, "ctx": ctx, "msg": msg}
     pre = "%s (%s), %d-byte message" % (cv, vname(ph, ctx), len(msg))
+    acc.count("sign_calls")
     signer = eddsa.new(libpriv(kd), "rfc8032", context=ctx)
     obj = lib_input(cv, ph, msg)
     out = B.lib_outcome(signer.sign, obj)
@@ -413,7 +414,6 @@ def worker(shards):
             for mn in mnames:
                 msg = msgs[mn]
                 sig = ed_sign_case(kd, ph, ctx, msg, acc)
-                acc.count("signatures")
                 acc.seen("sign_cfgs", (cv, ph, len(ctx), mn))
                 if sig is None:
                     continue
@@ -432,7 +432,6 @@ def worker(shards):
             ph, ctx = VARIANTS[vi]
             msg = msgs[mn]
             sig = ed_sign_case(kd, ph, ctx, msg, acc)        # the library's own signature (compared with the reference)
-            acc.count("signatures")
             if sig is None:
                 continue
             n = 0
